@@ -13,12 +13,12 @@ from mc.models import odf, rowmodel
 
 # name -> (declaration, fixed width, accepted cells, rejected cells)
 CATALOGUE = {
-    "id": ({"type": "Integer", "rule": {"items": [[0, 99, False]]}}, 3, ["1", "2", "3", "42", "0"], ["x", "100", "-1", "3.0"]),
+    "id": ({"type": "Integer", "rule": {"items": [[0, 99, False]]}}, 3, ["1", "2", "3", "42", "0"], ["x", "100", "-1", "3.0", "\xb2"]),  # superscript two: a digit to str.isdigit(), no number to int()
     "name": ({"type": "Text", "length": [[1, 3, False]]}, 3, ["ab", "c", "xyz"], ["", "abcd", "a%sd"]),
     # percent signs in the declared choices and in rejected cells (messages are built from them)
     "pct": ({"type": "Choice", "rule": {"choices": ["0%", "10%", "%s"], "quoted": True}}, 3, ["0%", "10%", "%s"], ["5%", "%d", "100%"]),
     "kind": ({"type": "Choice", "empty": True, "rule": {"choices": ["a", "b"], "quoted": True}}, 1, ["a", "b", ""], ["q", "A"]),
-    "amount": ({"type": "Decimal", "rule": {"items": [["0", "99.99", False]]}}, 6, ["1.5", "1.50", "7.0", "99.99", "0"], ["100", "1,5"]),  # 1.5 and 1.50: equal numbers, different texts (checks see the text)
+    "amount": ({"type": "Decimal", "rule": {"items": [["0", "99.99", False]]}}, 6, ["1.5", "1.50", "7.0", "99.99", "0"], ["100", "1,5", "NaN", "-sNaN", "Inf"]),  # 1.5 and 1.50: equal numbers, different texts (checks see the text)
     "day": ({"type": "DateTime", "rule": {"parts": ["DD", "MM", "YYYY"], "seps": [".", "."]}}, 10, ["01.02.2000", "29.02.2024"], ["31.02.2000", "x"]),
     "stamp": ({"type": "DateTime", "rule": {"parts": ["YYYY", "MM", "DD", "hh", "mm", "ss"], "seps": ["-", "-", " ", ":", ":"]}}, 19,
               ["2021-03-06 00:00:00", "2021-03-06 13:14:15", "1999-12-31 23:59:59"], ["2021-03-06", "2021-13-06 00:00:00"]),
@@ -250,7 +250,8 @@ def row_shapes(config, decls, tier="quick"):
         rejected = CATALOGUE[name][3]
         count = 2 if tier == "thorough" else 1
         # rejected cells holding a percent sign are always included (error messages are built from cell texts)
-        for variant, cell in enumerate(list(rejected[:count]) + [c for c in rejected[count:] if "%" in c]):
+        # so are texts that number parsers treat specially (not-a-number, a digit that is no decimal digit)
+        for variant, cell in enumerate(list(rejected[:count]) + [c for c in rejected[count:] if "%" in c or c in ("NaN", "\xb2")]):
             row = list(base)
             row[column] = cell
             shapes.append(("bad%d.%d" % (column, variant), row))
